@@ -13,6 +13,7 @@
 #include <sys/mman.h>
 #include <pthread.h>
 #include <string>
+#include <memory>
 #include <vector>
 #include <map>
 #include <unordered_set>
